@@ -23,7 +23,7 @@ ViewOK(v) == /\ Demand("wellformed", ViewWellFormed(v))
              /\ Demand("storedkeys", StoredKeysRoundTrip(v))
              /\ Demand("vpid", VpidInRange(v))
 TablesOK(vs, n) == /\ AllRanksPresent(vs, n)
-                   /\ Demand("sametiles", SameTiles(vs))
+                   /\ SameTiles(vs)
                    /\ Demand("oneowner", ExactlyOneOwner(vs))
                    /\ Demand("agree", ViewsAgree(vs))
 
@@ -36,10 +36,10 @@ TConfig == /\ IsEv("config") /\ nodes = 0
 \* the tables of the next rank
 TView == /\ IsEv("view") /\ nodes > 0
          /\ Ev.rank = Len(views) /\ Ev.rank < nodes /\ Ev.nodes = nodes
-         /\ ViewOK(Ev)
+         /\ ViewOK(Ev) = TRUE          \* (= TRUE: evaluated as an expression, not expanded as an action by TLC)
          /\ views' = Append(views, Ev) /\ UNCHANGED <<nodes, cfg>>
 TEnd == /\ IsEv("end") /\ nodes > 0
-        /\ TablesOK(views, nodes)
+        /\ TablesOK(views, nodes) = TRUE
         /\ nodes' = 0 /\ views' = <<>> /\ UNCHANGED cfg
 TNext == TReset \/ TConfig \/ TView \/ TEnd
 TSpec == TInit /\ [][TNext]_<<views, nodes, cfg, l>>
